@@ -8,7 +8,7 @@ from pathlib import Path
 from . import driver as D
 
 SIZES_ALIGNS = [(s, a) for s in (1, 2, 3, 4, 5, 7, 8, 12, 16, 24) for a in (1, 2, 4, 8, 16) if s % a == 0]
-KINDS = ['trivial', 'tr_declared', 'non_tr', 'throwing_move', 'opted_out', 'throwing_assign', 'tr_throwing_assign', 'throwing_swap']
+KINDS = ['trivial', 'tr_declared', 'non_tr', 'throwing_move', 'opted_out', 'throwing_assign', 'tr_throwing_assign', 'throwing_swap', 'user_copy_trivial_move']
 PAIRS = [('trivial', 'trivial'), ('trivial', 'non_tr'), ('tr_declared', 'trivial'), ('opted_out', 'trivial'), ('tr_declared', 'tr_declared')]
 N_FIXED = list(range(0, 11)) + [15, 16, 17, 31, 32, 33, 40, 255, 256, 65535, 65536]
 PTR = 8
@@ -49,8 +49,12 @@ template <int S, int A> struct ThrowingSwap { Bytes<S, A> d;
   ThrowingSwap() {} ThrowingSwap(const ThrowingSwap &o) : d(o.d) {} ThrowingSwap(ThrowingSwap &&o) noexcept : d(o.d) {}
   ThrowingSwap &operator=(const ThrowingSwap &o) { d = o.d; return *this; } ThrowingSwap &operator=(ThrowingSwap &&o) noexcept { d = o.d; return *this; } ~ThrowingSwap() {}
   friend void swap(ThrowingSwap &a, ThrowingSwap &b) noexcept(false) { Bytes<S, A> t = a.d; a.d = b.d; b.d = t; } };
+template <int S, int A> struct UserCopyTrivialMove { Bytes<S, A> d;
+  UserCopyTrivialMove() = default; UserCopyTrivialMove(const UserCopyTrivialMove &o) : d(o.d) {} UserCopyTrivialMove(UserCopyTrivialMove &&) = default;
+  UserCopyTrivialMove &operator=(const UserCopyTrivialMove &o) { d = o.d; return *this; } UserCopyTrivialMove &operator=(UserCopyTrivialMove &&) = default; ~UserCopyTrivialMove() = default; };
 template <int S, int A> struct OptedOut { using trivially_relocatable = std::false_type; Bytes<S, A> d; };
 template <class V> struct SwapNoexcept { static const bool value = noexcept(std::declval<V &>().swap(std::declval<V &>())); };
+namespace adl_probe { using std::swap; template <class V> struct FreeSwapNoexcept { static const bool value = noexcept(swap(std::declval<V &>(), std::declval<V &>())); }; }
 template <class T> struct TrOf { static const bool value = amc::is_trivially_relocatable<T>::value; };
 #define P(x) static_cast<unsigned long long>(x)
 template <class T, unsigned long long N>
@@ -58,17 +62,17 @@ static void row_dyn(const char *id) {  // amc::vector (N==0) or SmallVector
   typedef amc::vector<T> Vec;
   typedef amc::SmallVector<T, N> SV;
   typedef amc::FlatSet<T, std::less<T>, amc::allocator<T>, SV> FS;
-  std::printf("DYN %s sizeofT=%llu alignT=%llu trT=%d sizeofVec=%llu sizeofSV=%llu alignSV=%llu nmc=%d nma=%d nsw=%d trTypedef=%d trFlatSet=%d tdT=%d\n", id,
+  std::printf("DYN %s sizeofT=%llu alignT=%llu trT=%d sizeofVec=%llu sizeofSV=%llu alignSV=%llu nmc=%d nma=%d nsw=%d nswf=%d trTypedef=%d trFlatSet=%d tdT=%d\n", id,
               P(sizeof(T)), P(alignof(T)), int(TrOf<T>::value), P(sizeof(Vec)), P(sizeof(SV)), P(alignof(SV)),
-              int(std::is_nothrow_move_constructible<SV>::value), int(std::is_nothrow_move_assignable<SV>::value), int(SwapNoexcept<SV>::value),
+              int(std::is_nothrow_move_constructible<SV>::value), int(std::is_nothrow_move_assignable<SV>::value), int(SwapNoexcept<SV>::value), int(adl_probe::FreeSwapNoexcept<SV>::value),
               int(std::is_same<typename SV::trivially_relocatable, std::true_type>::value), int(TrOf<FS>::value), int(std::is_trivially_destructible<T>::value));
 }
 template <class T, unsigned long long N>
 static void row_fcv(const char *id) {
   typedef amc::FixedCapacityVector<T, N> F;
-  std::printf("FCV %s sizeofF=%llu tdF=%d stBytes=%llu stUnsigned=%d nmc=%d nma=%d nsw=%d trTypedef=%d sizeofT=%llu\n", id, P(sizeof(F)), int(std::is_trivially_destructible<F>::value),
+  std::printf("FCV %s sizeofF=%llu tdF=%d stBytes=%llu stUnsigned=%d nmc=%d nma=%d nsw=%d nswf=%d trTypedef=%d sizeofT=%llu\n", id, P(sizeof(F)), int(std::is_trivially_destructible<F>::value),
               P(sizeof(typename F::size_type)), int(std::is_unsigned<typename F::size_type>::value), int(std::is_nothrow_move_constructible<F>::value),
-              int(std::is_nothrow_move_assignable<F>::value), int(SwapNoexcept<F>::value), int(std::is_same<typename F::trivially_relocatable, std::true_type>::value), P(sizeof(T)));
+              int(std::is_nothrow_move_assignable<F>::value), int(SwapNoexcept<F>::value), int(adl_probe::FreeSwapNoexcept<F>::value), int(std::is_same<typename F::trivially_relocatable, std::true_type>::value), P(sizeof(T)));
 }
 #if __cplusplus >= 201703L
 template <class T, unsigned long long N>
@@ -81,7 +85,7 @@ static void row_set(const char *id) {
 '''
 
 CXX_KIND = {'trivial': 'Trivial', 'tr_declared': 'TrDeclared', 'non_tr': 'NonTr', 'throwing_move': 'ThrowingMove', 'opted_out': 'OptedOut', 'throwing_assign': 'ThrowingAssign',
-            'tr_throwing_assign': 'TrThrowingAssign', 'throwing_swap': 'ThrowingSwap'}
+            'tr_throwing_assign': 'TrThrowingAssign', 'throwing_swap': 'ThrowingSwap', 'user_copy_trivial_move': 'UserCopyTrivialMove'}
 
 
 def tname(t):
@@ -120,7 +124,7 @@ def t_tr(t):
 def t_trivially_destructible(t):
     if t[0] == 'pair':
         return t_trivially_destructible(t[1]) and t_trivially_destructible(t[2])
-    return t[0] in ('trivial', 'opted_out')
+    return t[0] in ('trivial', 'opted_out', 'user_copy_trivial_move')
 
 
 def t_nothrow_move(t):  # move construction and move assignment
@@ -260,6 +264,8 @@ def compare(std, rows, table):
                 bad.append((rid, 'c++%s: %s of SmallVector<T,%d> must be noexcept under the documented condition but is not' % (std, what, n)))
             if e[k + '_forbidden'] and d[k]:
                 bad.append((rid, 'c++%s: %s of SmallVector<T,%d> is declared noexcept although it runs a throwing element operation' % (std, what, n)))
+        if d['nswf'] != d['nsw']:
+            bad.append((rid, 'c++%s: swap(a, b) found by ADL on SmallVector<T,%d> is noexcept(%d) but a.swap(b) is noexcept(%d): the free function calls the member' % (std, n, d['nswf'], d['nsw'])))
         if n >= 0:
             f = table.get(('FCV', rid))
             if f is None:
@@ -269,6 +275,8 @@ def compare(std, rows, table):
             for k in ('tdF', 'stBytes', 'stUnsigned', 'trTypedef'):
                 if f[k] != ef[k]:
                     bad.append((rid, 'c++%s: FixedCapacityVector<T,%d> %s is %d, the statement implies %d' % (std, n, k, f[k], ef[k])))
+            if f['nswf'] != f['nsw']:
+                bad.append((rid, 'c++%s: swap(a, b) found by ADL on FixedCapacityVector<T,%d> is noexcept(%d) but a.swap(b) is noexcept(%d)' % (std, n, f['nswf'], f['nsw'])))
             for k, what in (('nmc', 'move construction'), ('nma', 'move assignment'), ('nsw', 'swap')):
                 if ef[k + '_required'] and not f[k]:
                     bad.append((rid, 'c++%s: %s of FixedCapacityVector<T,%d> must be noexcept under the documented condition but is not' % (std, what, n)))
